@@ -7,11 +7,13 @@ let script_names = List.map bytes_of_hex ["2f73796e63"; "2f6173796e63"; "2f72657
 let pairs l = if l = [] then "-" else String.concat "," (List.map (fun (k, v) -> b k ^ ":" ^ b v) l)
 let rec take n l = if n <= 0 then [] else match l with [] -> [] | x :: r -> x :: take (n-1) r
 let rec drop n l = if n <= 0 then l else match l with [] -> [] | _ :: r -> drop (n-1) r
+(* what the application observes is the extracted Observe.observe (Props.v: forms_and_cookies_roundtrip,
+   frontends_same_forms_and_cookies) *)
 let show_view (v : view) body =
-  let post = if is_urlencoded v.v_ctype then parse_post_form body else [] in
+  let o = observe v body in
   Printf.sprintf "OK M=%s;S=%s;P=%s;Q=%s;CT=%s;CL=%d;E=%s;G=%s;O=%s;B=%s;K=%s"
     (b v.v_method) (b v.v_script) (b v.v_path_info) (b v.v_query) (b v.v_ctype) (int_of_z v.v_clen)
-    (pairs v.v_env) (pairs (parse_form v.v_query)) (pairs post) (b body) (pairs (cookies_of_env v.v_env))
+    (pairs v.v_env) (pairs o.o_get) (pairs o.o_post) (b o.o_body) (pairs o.o_cookies)
 let cl_limit_i = 1024 * 1024
 let rec nat_of_int n = if n <= 0 then O else S (nat_of_int (n - 1))
 (* the whole connection is the extracted Conn.http_conn (chunk-level; Props.v: equal to the stream-level http_stream) *)
@@ -56,4 +58,21 @@ let () = main_loop (fun line -> match line with
     let tr = pool_run (List.map op ops) pool0 in
     if tr = [] then "-" else
     String.concat " " (List.map (fun (((i, off), n), cap) -> Printf.sprintf "%d:%d:%d:%d" (int_of_nat i) (int_of_n off) (int_of_n n) (int_of_n cap)) tr)
+  | "smap" :: ops ->
+    (* string_map: a<hexkey>=<hexval> add, g<hexkey> get, c clear, d dump *)
+    let arg s = String.sub s 1 (String.length s - 1) in
+    let unh s = if s = "-" then [] else bytes_of_hex s in
+    let op s = match s.[0] with
+      | 'a' -> let a = arg s in let i = String.index a '=' in
+        SAdd (cstr (unh (String.sub a 0 i)), cstr (unh (String.sub a (i + 1) (String.length a - i - 1))))
+      | 'g' -> SGet (cstr (unh (arg s)))
+      | 'c' -> SClear
+      | _ -> SDump in
+    let show = function
+      | RVal None -> "0" | RVal (Some v) -> b v | RLoop -> "LOOP"
+      | RDump (size, total, keys) ->
+        Printf.sprintf "D%d/%d[%s]" (int_of_nat size) (int_of_nat total)
+          (String.concat "," (List.map (fun (i, k) -> Printf.sprintf "%d:%s" (int_of_nat i) (b k)) keys)) in
+    let r = List.map show (smap_run (List.map op ops)) in
+    if r = [] then "=" else String.concat " " r
   | _ -> "BAD-CASE")
